@@ -53,6 +53,9 @@ struct Ctx<'a> {
     anchor_lines: Vec<(String, String, i64)>,
     /// per-selector override of the derive traits that are kept (R0.derive)
     derive_keep: Option<Vec<String>>,
+    /// closure signatures per fn (reported, pinned by the driver and passed back as `pinned_closure_sigs`)
+    closure_sigs: Vec<(String, Vec<String>)>,
+    pinned_closure_sigs: HashMap<String, Vec<String>>,
     float: bool,
     macro_map: HashMap<String, String>,
     /// R9.method: method-call identifier renames (`x.extend(v)` -> `x.vx_extend(v)`), the target is a prelude stub
@@ -64,12 +67,21 @@ struct Ctx<'a> {
     /// `{ let mut vx_iK = LO; let vx_hiK = HI; while vx_iK < vx_hiK { let PAT = vx_iK; vx_iK += 1; B } }`
     /// (Verus for-loops do not support `continue`); K = ordinal of the rewritten loop in the item
     forrange: bool,
+    /// R10.foriter (rules.foriter: [keys]): any other `for` loop -> explicit iterator facade + while loop
+    foriter: bool,
     for_seq: usize,
     /// R11.wildclosure (rules.wild_closure_args: true): a closure parameter written as the wildcard pattern `_`
     /// becomes the fresh, unused variable `_vx_wK` (Verus: "only variables are supported here, not general
     /// patterns"). Same meaning for `Copy` arguments (a reference, an integer): nothing is moved or dropped earlier.
     wild_closure: bool,
     wild_seq: usize,
+    /// R13.closurepat (rules.closure_param_patterns: true): a closure parameter written as a destructuring
+    /// pattern, `|(a, b)| body`, becomes `|vx_cpK| { let (a, b) = vx_cpK; body }` with K = position of the
+    /// parameter in its closure (Verus: "only variables are supported here, not general patterns"). Same
+    /// meaning: the pattern is irrefutable and a `let` applies the same default binding modes as a closure
+    /// parameter. Analogue of R13.parampat for closures. Runs after R1.closure, so a closure contract of the
+    /// unit refers to the parameter as `vx_cpK`.
+    closure_pats: bool,
     /// R12.typemap (rules.type_map: {"<type, spaces removed>": "Replacement"}): a type written exactly like the
     /// key is replaced by a prelude façade type (e.g. `Arc<dyn Error + Send + Sync>`: Verus has no multi-trait dyn)
     type_map: HashMap<String, String>,
@@ -91,15 +103,19 @@ impl<'a> Ctx<'a> {
             errors: vec![],
             anchor_lines: vec![],
             derive_keep: None,
+            closure_sigs: vec![],
+            pinned_closure_sigs: HashMap::new(),
             float: false,
             macro_map: HashMap::new(),
             method_map: HashMap::new(),
             r9_extend: false,
             boolops_all: false,
             forrange: false,
+            foriter: false,
             for_seq: 0,
             wild_closure: false,
             wild_seq: 0,
+            closure_pats: false,
             type_map: HashMap::new(),
         }
     }
@@ -296,6 +312,32 @@ impl<'c, 'a, 'ast> Visit<'ast> for Rewriter<'c, 'a> {
                 }
             }
         }
+        // R13.closurepat: `|(a, b)| body` -> `|vx_cpK| { let (a, b) = vx_cpK; body }`
+        if self.cx.closure_pats {
+            let mut lets = String::new();
+            for (k, p) in e.inputs.iter().enumerate() {
+                let pat: &syn::Pat = match p {
+                    syn::Pat::Type(t) => &*t.pat,
+                    other => other,
+                };
+                if matches!(pat, syn::Pat::Tuple(_) | syn::Pat::TupleStruct(_) | syn::Pat::Struct(_) | syn::Pat::Reference(_) | syn::Pat::Slice(_)) {
+                    let (ps, pe) = self.cx.range(pat.span());
+                    let ptxt = self.cx.src[ps..pe].to_string();
+                    // K = position of the parameter in ITS closure (stable under edits elsewhere)
+                    self.cx.push(ps, pe, format!("vx_cp{}", k), "R13.closurepat");
+                    lets.push_str(&format!(" let {} = vx_cp{};", ptxt, k));
+                }
+            }
+            if !lets.is_empty() {
+                let (bs, be) = self.cx.range(e.body.span());
+                if let syn::Expr::Block(_) = &*e.body {
+                    self.cx.push(bs + 1, bs + 1, lets, "R13.closurepat.let");
+                } else {
+                    self.cx.push(bs, bs, format!("{{{} ", lets), "R13.closurepat.let");
+                    self.cx.push(be, be, " }", "R13.closurepat.close");
+                }
+            }
+        }
         visit::visit_expr_closure(self, e);
     }
     fn visit_type(&mut self, t: &'ast syn::Type) {
@@ -347,6 +389,26 @@ impl<'c, 'a, 'ast> Visit<'ast> for Rewriter<'c, 'a> {
                     return;
                 }
             }
+        }
+        // R10.foriter (rules.foriter: [keys]): `for PAT in EXPR { B }` (EXPR not rewritten by R10.forrange) ->
+        // `{ let mut vx_itK = vx_iter(EXPR); while vx_itK.vx_more() { let PAT = vx_itK.vx_next(); B } }`.
+        // This is Rust's own desugaring (IntoIterator::into_iter + next) with the advance at the head of the
+        // body, so `continue` / `break` / `?` keep their meaning; EXPR is copied verbatim (and still visited);
+        // vx_iter / vx_more / vx_next are prelude facade functions of the unit.
+        if self.cx.foriter && e.label.is_none() {
+            let k = self.cx.for_seq;
+            self.cx.for_seq += 1;
+            let (fs, _) = self.cx.range(e.for_token.span());
+            let (es, ee) = self.cx.range(e.expr.span());
+            let (bs, be) = self.cx.range(e.body.span());
+            let pat_t = self.cx.text(e.pat.span()).to_string();
+            self.cx.push(fs, es, format!("{{ let mut vx_it{k} = vx_iter("), "R10.foriter");
+            self.cx.push(ee, bs, format!("); while vx_it{k}.vx_more() "), "R10.foriter.cond");
+            self.cx.push(bs + 1, bs + 1, format!(" let {pat_t} = vx_it{k}.vx_next();"), "R10.foriter.head");
+            self.cx.push(be, be, " }", "R10.foriter.close");
+            self.visit_expr(&e.expr);
+            self.visit_block(&e.body);
+            return;
         }
         visit::visit_expr_for_loop(self, e);
     }
@@ -1011,11 +1073,34 @@ fn apply_contract(cx: &mut Ctx, f: &FnInfo, contract: Option<&Value>, mutself: b
 /// parameter pattern and ` -> ret spec ` between the parameter list and the body. Nothing executable
 /// changes: a type ascription and a Verus closure contract (Verus knows nothing about the result of an
 /// unannotated closure).
-fn apply_closure_specs(cx: &mut Ctx, f: &FnInfo, specs: Option<&Value>) {
+/// body of a closure that is a projection: paths, field accesses, `!`, `*`, `&`, `&&`, `||`, parentheses,
+/// `true`/`false`. Such a body is also a Verus spec expression with the same meaning.
+fn simple_pure(e: &syn::Expr) -> bool {
+    match e {
+        syn::Expr::Path(p) => p.qself.is_none(),
+        syn::Expr::Lit(l) => matches!(l.lit, syn::Lit::Bool(_)),
+        syn::Expr::Field(f) => simple_pure(&f.base),
+        syn::Expr::Paren(p) => simple_pure(&p.expr),
+        syn::Expr::Reference(r) => r.mutability.is_none() && simple_pure(&r.expr),
+        syn::Expr::Unary(u) => matches!(u.op, syn::UnOp::Not(_) | syn::UnOp::Deref(_)) && simple_pure(&u.expr),
+        syn::Expr::Binary(b) => matches!(b.op, syn::BinOp::And(_) | syn::BinOp::Or(_)) && simple_pure(&b.left) && simple_pure(&b.right),
+        syn::Expr::Block(b) => {
+            b.label.is_none() && b.block.stmts.len() == 1
+                && match &b.block.stmts[0] { syn::Stmt::Expr(e, None) => simple_pure(e), _ => false }
+        }
+        _ => false,
+    }
+}
+
+/// Returns (closures, closures left without a contract).
+fn apply_closure_specs(cx: &mut Ctx, f: &FnInfo, specs: Option<&Value>, mutself: bool) -> (usize, usize) {
+    let empty: Vec<Value> = vec![];
     let (block, specs) = match (f.block, specs.and_then(|v| v.as_array())) {
         (Some(b), Some(s)) => (b, s),
-        _ => return,
+        (Some(b), None) => (b, &empty),
+        _ => return (0, 0),
     };
+    let mut specified: HashSet<usize> = HashSet::new();
     struct ClosureFinder<'q> { found: Vec<&'q syn::ExprClosure> }
     impl<'ast> Visit<'ast> for ClosureFinder<'ast> {
         fn visit_expr_closure(&mut self, e: &'ast syn::ExprClosure) {
@@ -1026,8 +1111,61 @@ fn apply_closure_specs(cx: &mut Ctx, f: &FnInfo, specs: Option<&Value>) {
     }
     let mut cf = ClosureFinder { found: vec![] };
     cf.visit_block(block);
+    // signature of each closure: its parameter text (a mutated / inserted closure is re-aligned against the
+    // pinned list of signatures, so that contracts keyed by ordinal stay on "their" closures)
+    let cur_sigs: Vec<String> = cf.found.iter().map(|c| c.inputs.to_token_stream().to_string().replace(' ', "")).collect();
+    if cf.found.is_empty() {
+        return (0, 0);
+    }
+    if !specs.is_empty() {
+        cx.closure_sigs.push((f.key.clone(), cur_sigs.clone()));
+    }
+    let pinned: Option<Vec<String>> = cx.pinned_closure_sigs.get(&f.key).cloned();
+    // map pinned ordinal -> current ordinal by a minimal edit script (substitution allowed)
+    let mapping: Option<Vec<Option<usize>>> = pinned.as_ref().map(|p| {
+        let (n, m) = (p.len(), cur_sigs.len());
+        let mut d = vec![vec![0usize; m + 1]; n + 1];
+        for i in 0..=n { d[i][0] = i; }
+        for j in 0..=m { d[0][j] = j; }
+        for i in 1..=n {
+            for j in 1..=m {
+                let sub = d[i - 1][j - 1] + if p[i - 1] == cur_sigs[j - 1] { 0 } else { 1 };
+                d[i][j] = sub.min(d[i - 1][j] + 1).min(d[i][j - 1] + 1);
+            }
+        }
+        let mut map = vec![None; n];
+        let (mut i, mut j) = (n, m);
+        while i > 0 && j > 0 {
+            let sub = d[i - 1][j - 1] + if p[i - 1] == cur_sigs[j - 1] { 0 } else { 1 };
+            if d[i][j] == sub {
+                map[i - 1] = Some(j - 1);
+                i -= 1;
+                j -= 1;
+            } else if d[i][j] == d[i - 1][j] + 1 {
+                i -= 1;
+            } else {
+                j -= 1;
+            }
+        }
+        map
+    });
     for s in specs {
-        let idx = s["index"].as_u64().unwrap_or(0) as usize;
+        let idx0 = s["index"].as_u64().unwrap_or(0) as usize;
+        let idx = match &mapping {
+            Some(mp) if mp.len() != cur_sigs.len() || pinned.as_ref().map(|p| p != &cur_sigs).unwrap_or(false) => match mp.get(idx0).copied().flatten() {
+                Some(j) => {
+                    if j != idx0 {
+                        cx.push(cx.range(block.span()).0, cx.range(block.span()).0, "", "R1.closure.realigned");
+                    }
+                    j
+                }
+                None => {
+                    cx.push(cx.range(block.span()).0, cx.range(block.span()).0, "", "R1.droppedhint");
+                    continue;
+                }
+            },
+            _ => idx0,
+        };
         let c = match cf.found.get(idx) {
             Some(c) => *c,
             None => {
@@ -1061,7 +1199,48 @@ fn apply_closure_specs(cx: &mut Ctx, f: &FnInfo, specs: Option<&Value>) {
             cx.push(bs, bs, "{ ", "R1.closure.brace");
             cx.push(be, be, " }", "R1.closure.brace");
         }
+        specified.insert(idx);
     }
+    // R1.closure.auto: a closure without a contract whose body is a projection gets the contract
+    // "result equals the body" (the body text read as a spec expression). Nothing executable changes.
+    let mut unspecified = 0usize;
+    for (k, c) in cf.found.iter().enumerate() {
+        if specified.contains(&k) {
+            continue;
+        }
+        let (bs, be) = cx.range(c.body.span());
+        let text = cx.src[bs..be].to_string();
+        let uses_self = c.body.to_token_stream().into_iter().any(|t| t.to_string() == "self") || text.contains("self");
+        let plain_params = c.inputs.iter().all(|p| match p {
+            syn::Pat::Type(t) => matches!(&*t.pat, syn::Pat::Ident(_) | syn::Pat::Wild(_)),
+            syn::Pat::Ident(_) | syn::Pat::Wild(_) => true,
+            _ => false,
+        });
+        if matches!(c.output, syn::ReturnType::Default) && simple_pure(&c.body) && !(mutself && uses_self) && c.capture.is_none() && plain_params {
+            cx.push(bs, bs, format!("-> (vx_q: _) ensures equal(vx_q, {}) ", text), "R1.closure.auto");
+            if !matches!(&*c.body, syn::Expr::Block(_)) {
+                cx.push(bs, bs, "{ ", "R1.closure.brace");
+                cx.push(be, be, " }", "R1.closure.brace");
+            }
+        } else {
+            unspecified += 1;
+        }
+    }
+    (cf.found.len(), unspecified)
+}
+
+/// number of loops (for / while / loop) in a function body, closures and nested items excluded
+fn count_loops(b: &syn::Block) -> usize {
+    struct L { n: usize }
+    impl<'ast> Visit<'ast> for L {
+        fn visit_expr_for_loop(&mut self, e: &'ast syn::ExprForLoop) { self.n += 1; visit::visit_expr_for_loop(self, e); }
+        fn visit_expr_while(&mut self, e: &'ast syn::ExprWhile) { self.n += 1; visit::visit_expr_while(self, e); }
+        fn visit_expr_loop(&mut self, e: &'ast syn::ExprLoop) { self.n += 1; visit::visit_expr_loop(self, e); }
+        fn visit_item(&mut self, _i: &'ast syn::Item) {}
+    }
+    let mut l = L { n: 0 };
+    l.visit_block(b);
+    l.n
 }
 
 fn type_last_ident(ty: &syn::Type) -> String {
@@ -1197,6 +1376,10 @@ fn main() {
         .as_array()
         .map(|a| a.iter().filter_map(|v| v.as_str().map(String::from)).collect())
         .unwrap_or_default();
+    let foriter: HashSet<String> = rules["foriter"]
+        .as_array()
+        .map(|a| a.iter().filter_map(|v| v.as_str().map(String::from)).collect())
+        .unwrap_or_default();
     // R7.impltrait (rules.impl_trait_args: [keys]): argument-position `impl Trait` -> named type parameter
     let impl_trait_args: HashSet<String> = rules["impl_trait_args"]
         .as_array()
@@ -1222,6 +1405,7 @@ fn main() {
 
     let r9_extend = rules["extend_slice"].as_bool().unwrap_or(false);
     let wild_closure = rules["wild_closure_args"].as_bool().unwrap_or(false);
+    let closure_pats = rules["closure_param_patterns"].as_bool().unwrap_or(false);
     let param_patterns: HashSet<String> = rules["param_patterns"]
         .as_array()
         .map(|a| a.iter().filter_map(|v| v.as_str().map(String::from)).collect())
@@ -1283,7 +1467,7 @@ fn main() {
             cx.float = float && !sel["nofloat"].as_bool().unwrap_or(false);
             cx.macro_map = macro_map.clone();
             cx.method_map = method_map.clone(); cx.r9_extend = r9_extend;
-            cx.wild_closure = wild_closure; cx.type_map = type_map.clone();
+            cx.wild_closure = wild_closure; cx.closure_pats = closure_pats; cx.type_map = type_map.clone();
             if kind == "lift" {
                 // R6/R8: lift a closure bound to a `let` or the body of loop k of a function into a free fn
                 let want_ty = sel["type"].as_str();
@@ -1383,6 +1567,7 @@ fn main() {
                     cx.boolops_all = boolops.contains("*");
                     let b = boolops.contains(&lname);
                     cx.forrange = forrange.contains(&lname);
+                    cx.foriter = foriter.contains(&lname);
                     let mut rw = Rewriter { cx: &mut cx, boolops: b, in_macro: false };
                     rw.visit_block(block);
                 }
@@ -1465,6 +1650,7 @@ fn main() {
                 continue;
             }
             let it = found[nth];
+            cx.pinned_closure_sigs = rules["pinned_closure_sigs"].as_object().map(|m| m.iter().map(|(k, v)| (k.clone(), v.as_array().map(|a| a.iter().filter_map(|x| x.as_str().map(String::from)).collect()).unwrap_or_default())).collect()).unwrap_or_default();
             cx.derive_keep = sel["derive_keep"].as_array().map(|a| a.iter().filter_map(|v| v.as_str().map(String::from)).collect());
             let (istart, iend) = cx.range(it.span());
             // R0 attributes
@@ -1634,7 +1820,8 @@ fn main() {
                         impl_trait_arg_edits(&mut cx, sig);
                     }
                 }
-                apply_closure_specs(&mut cx, f, rules["closure_specs"].get(&f.key));
+                let (n_closures, n_closures_unspec) = apply_closure_specs(&mut cx, f, rules["closure_specs"].get(&f.key), mutself.contains(&f.key));
+                let n_loops = f.block.map(|b| count_loops(b)).unwrap_or(0);
                 let (a, b) = cx.range(f.span);
                 fn_meta.push(json!({
                     "key": f.key,
@@ -1644,6 +1831,9 @@ fn main() {
                     "has_contract": c.is_some(),
                     "has_body": f.block.is_some(),
                     "in_trait_impl": f.in_trait_impl,
+                    "closures": n_closures,
+                    "closures_without_contract": n_closures_unspec,
+                    "loops": n_loops,
                 }));
             }
             // generic rewrites over the item; boolops per fn
@@ -1679,6 +1869,7 @@ fn main() {
                                     if let Some(k) = key {
                                         let b = boolops.contains(&k);
                                         cx.forrange = forrange.contains(&k);
+                                        cx.foriter = foriter.contains(&k);
                                         let mut rw = Rewriter { cx: &mut cx, boolops: b, in_macro: false };
                                         rw.visit_impl_item_fn(f);
                                     }
@@ -1692,6 +1883,8 @@ fn main() {
                     }
                     syn::Item::Fn(f) => {
                         let b = boolops.contains(&f.sig.ident.to_string());
+                        cx.forrange = forrange.contains(&f.sig.ident.to_string());
+                        cx.foriter = foriter.contains(&f.sig.ident.to_string());
                         let mut rw = Rewriter { cx: &mut cx, boolops: b, in_macro: false };
                         rw.visit_item_fn(f);
                     }
@@ -1737,6 +1930,7 @@ fn main() {
                 "rewrites": counts,
                 "fns": fn_meta,
                 "anchor_lines": cx.anchor_lines.iter().map(|(k, a, l)| json!([k, a, l])).collect::<Vec<_>>(),
+                "closure_sigs": cx.closure_sigs.iter().map(|(k, v)| json!([k, v])).collect::<Vec<_>>(),
             }));
         }
     }
